@@ -195,6 +195,11 @@ def check_sequence(case, mon, ctx, lm, letters, is_torch):
     rng = np.random.default_rng(case['lm_seed'])
     C = len(letters) + 1
     mats = [case['lp']] + [make_matrix(rng, str(rng.choice(['rand', 'peaky', 'zeros', 'repeats'])), int(rng.integers(1, 8)), C) for _ in range(2)]
+    # a blank-only line (no character above the pre-selection threshold in any frame: the search never leaves the empty prefix) early in the sequence
+    bo = np.full((int(rng.integers(1, 4)), C), 1e-7)
+    bo[:, -1] = 1.0
+    bo = np.log(bo / bo.sum(1, keepdims=True))
+    mats.insert(1, bo)
     mats.append(case['lp'])
     k, scale, bonus, eos = case['k'], case['scale'], case['bonus'], case['eos']
     dec = D.CTCPrefixLogRawNumpyDecoder(letters + [D.BLANK_SYMBOL], k=k, lm=lm, lm_scale=scale, insertion_bonus=bonus)
@@ -215,8 +220,9 @@ def check_sequence(case, mon, ctx, lm, letters, is_torch):
             hs = np.asarray(h).reshape(-1).tolist()
         return hy, hs
     for n, lp in enumerate(mats):
-        got = summary(*dec(lp.copy(), model_eos=eos, return_h=True))
-        exp = summary(*fresh()(lp.copy(), model_eos=eos, return_h=True))
+        eos_n = bool(eos or n % 2 == 1)        # end-of-line modelling on at least every other call
+        got = summary(*dec(lp.copy(), model_eos=eos_n, return_h=True))
+        exp = summary(*fresh()(lp.copy(), model_eos=eos_n, return_h=True))
         mon.count('sequence_calls_checked')
         if got != exp:
             mon.violation('lm-score-is-the-models-own', {'note': 'a decoder that has decoded other lines before gives a different bag / state than a fresh one (no initial state supplied)',
